@@ -10,3 +10,17 @@ Print Assumptions C17.
 (** r = 1: the single cell must hold 1; with the given "1" the formula is satisfied by that assignment *)
 Example C17_instance : fsem (sudoku_form 1 ((0, 1) :: nil)) (fun v => Nat.eqb v 1) = true /\ fsem (sudoku_form 1 nil) (fun _ => false) = false.
 Proof. split; vm_compute; reflexivity. Qed.
+
+(** over the puzzle text: the hints are read by [hints_of_text] (white space stripped, position below
+    r^4, ASCII digit); when every given digit lies in 1..r^2 the emitted formula's models are exactly the
+    completed grids that keep the givens *)
+From Coq Require Import NArith.
+From Rsbdd Require Import Gen.GenCheck.
+Theorem C17_text r ws txt s :
+  let hints := hints_of_text ws ((r * r) * (r * r)) txt in
+  (forall c d, In (c, d) hints -> 1 <= d <= r * r) ->
+  (fsem (sudoku_form r hints) s = true <-> exists g, Sudoku.grid_ok r hints g /\ Sudoku.encodes r s g).
+Proof.
+  intros hints Hd. apply C17_formula. intros c d Hin. split; [|exact (Hd c d Hin)].
+  unfold hints, hints_of_text in Hin. destruct (hints_from_range _ _ _ c d Hin) as [Hc _]. exact (proj2 Hc).
+Qed.
